@@ -125,6 +125,10 @@ class NotImplementedSECoPError(NotImplementedError, SECoPError):
     helpful during development."""
     name = 'NotImplemented'
 
+    def __init__(self, *args, **kwds):
+        # (the builtin base class comes first: its __init__ would not call ours)
+        SECoPError.__init__(self, *args, **kwds)
+
 
 class NoSuchParameterError(SECoPError):
     """missing parameter
@@ -245,6 +249,10 @@ class HardwareError(SECoPError):
 class TimeoutSECoPError(TimeoutError, SECoPError):
     """Some initiated action took longer than the maximum allowed time (retryable)"""
     name = 'TimeoutError'
+
+    def __init__(self, *args, **kwds):
+        # (the builtin base class comes first: its __init__ would not call ours)
+        SECoPError.__init__(self, *args, **kwds)
 
 
 FRAPPY_ERROR = re.compile(r'(\w*): (.*)$')
